@@ -97,6 +97,10 @@ func TestC07(t *testing.T) {
 		if rng.IntN(2) == 0 {
 			add(false, true)
 		}
+		// every fourth round: publishers keep subscribing Once handlers on the same type, each of which
+		// fires on the next publish and is then taken out of the registry while other publishers are
+		// part-way through their dispatch
+		onceChurn := i%4 == 2
 		published := make([][]uint64, P)
 		var maybe sync.Map // ids whose context ended after the publish returned
 		var wg sync.WaitGroup
@@ -108,6 +112,9 @@ func TestC07(t *testing.T) {
 				<-start
 				for k := 0; k < E; k++ {
 					id := w.NextEID()
+					if onceChurn && k%2 == 0 {
+						w.Subscribe(g, &conc.Reg{T: 0, Class: 11, Once: true})
+					}
 					if withCancelled && (k+g)%5 == 1 {
 						// a publish whose context is already cancelled: no delivery is owed, and it must
 						// not disturb the deliveries of the live publishes around it
